@@ -56,6 +56,20 @@ def normal_form_ok(real, cl, aea, t, **ctxinfo):
                             expected=repr(blocks_of(cl)), **ctxinfo)
     if s2 != s1:
         return not t.failed("formatting is not idempotent (not a normal form)", formatted=s1, second=s2, **ctxinfo)
+    # the other ways in and out: written into an open file, given back as bytes / as a list of bytes lines
+    try:
+        import io
+        fh = io.StringIO()
+        cl.write_to_open_file(fh)
+        with warnings.catch_warnings():
+            warnings.simplefilter("ignore")
+            s3 = str(real.Changelog(s1.encode("utf-8"), allow_empty_author=aea))
+            s4 = str(real.Changelog([l.encode("utf-8") for l in s1.splitlines(True)], allow_empty_author=aea)) if s1 else s1
+    except Exception as e:
+        return not t.failed("write_to_open_file / re-parsing the formatted changelog from bytes raised %r" % (e,), formatted=s1, **ctxinfo)
+    if fh.getvalue() != s1 or s3 != s1 or s4 != s1:
+        return not t.failed("the formatted changelog depends on how it is written out / handed back in", formatted=s1,
+                            write_to_open_file=fh.getvalue(), reparsed_from_bytes=s3, reparsed_from_bytes_lines=s4, **ctxinfo)
     return True
 
 
